@@ -23,9 +23,9 @@ import (
 	"github.com/flamego/flamego/verifharness/internal/rt"
 )
 
-const rule = "case = options (Charset, JSONIndent, XMLIndent; or none) x Renderer placed as application middleware, group handler or route handler x 1..3 later handlers of which one renders x a render call: JSON of a randomly nested value (maps, slices, strings with <>&, numbers, booleans, null) or of a tagged struct, XML of a struct with attributes, nested, optional and repeated elements, Binary of arbitrary bytes, PlainText of arbitrary text, with a status in 100..999, for GET / POST / HEAD; optionally the rendering handler first serves a nested request through the same application (which renders something else) before rendering its own response. " +
+const rule = "case = options (Charset, JSONIndent, XMLIndent; or none) x Renderer placed as application middleware, group handler or route handler x 1..3 later handlers of which one renders x a render call: JSON of a randomly nested value (maps, slices, strings with <>&, numbers, booleans, null) or of a tagged struct, XML of a struct with attributes, nested, optional and repeated elements, Binary of arbitrary bytes, PlainText of arbitrary text, with a status in 100..999, for GET / POST / HEAD; optionally the rendering handler first serves a nested request through the same application (which renders something else) before rendering its own response, optionally a middleware in front or the handler itself has already put some other Content-Type on the response. " +
 	"Oracle: the spy writer got exactly the given status once and before the body; Content-Type is the documented media type with the configured (default utf-8) charset; Binary / PlainText bodies are verbatim; the JSON body is valid JSON laid out with the configured indentation and json.Unmarshal of it is DeepEqual to the value; the XML body decodes into an equal struct and is indented iff an indentation is configured; every handler after the middleware receives a Render. " +
-	"non-trivial = a non-200 status, a non-default option, a value nested >= 2 deep, a nested request, or a HEAD request; distinct by case text"
+	"non-trivial = a non-200 status, a non-default option, a value nested >= 2 deep, a nested request, a Content-Type set before the render call, or a HEAD request; distinct by case text"
 
 var assumptions = []string{
 	"values are encodable (statement): strings are valid UTF-8 without characters XML cannot represent, floats are finite",
@@ -61,6 +61,10 @@ type Case struct {
 	Person *XPerson               `json:"person,omitempty"` // for jsonstruct / xml
 	Bytes  string                 `json:"bytes,omitempty"`  // quoted, for binary / text
 	Nested bool                   `json:"nested,omitempty"`
+	// PreCT: something set a Content-Type on the response before the render
+	// call: "" nobody, "first" a middleware in front of everything, "handler"
+	// the rendering handler itself.
+	PreCT string `json:"content_type_set_before,omitempty"`
 }
 
 func (c Case) value() interface{} {
@@ -118,6 +122,9 @@ func checkCase(c Case) (out evid.Outcome) {
 					panic(fmt.Sprintf("nested request answered %v %q", inner.Codes, inner.Body))
 				}
 			}
+			if c.PreCT == "handler" {
+				ctx.ResponseWriter().Header().Set("Content-Type", "text/html; charset=utf-8")
+			}
 			switch c.Kind {
 			case "json", "jsonstruct":
 				r.JSON(c.Status, v)
@@ -131,6 +138,9 @@ func checkCase(c Case) (out evid.Outcome) {
 		})
 	}
 	innerH := func(r flamego.Render) { r.PlainText(202, "inner-text") }
+	if c.PreCT == "first" {
+		f.Use(func(ctx flamego.Context) { ctx.ResponseWriter().Header().Set("Content-Type", "application/octet-stream") })
+	}
 	switch c.At {
 	case "use":
 		f.Use(renderer)
@@ -293,6 +303,10 @@ func checkCase(c Case) (out evid.Outcome) {
 		out.NonTrivial = true
 		out.Classes = append(out.Classes, "head")
 	}
+	if c.PreCT != "" {
+		out.NonTrivial = true
+		out.Classes = append(out.Classes, "content-type-set-before")
+	}
 	out.Classes = append(out.Classes, "kind:"+c.Kind, "at:"+c.At)
 	return out
 }
@@ -397,6 +411,7 @@ func genCase(t *rapid.T) Case {
 		Status: []int{200, 200, 201, 204, 304, 400, 404, 418, 500, 503, 100, 103, 999}[rapid.IntRange(0, 12).Draw(t, "status")],
 		Method: []string{"GET", "GET", "POST", "HEAD"}[rapid.IntRange(0, 3).Draw(t, "method")],
 		Nested: rapid.IntRange(0, 4).Draw(t, "nested") == 0,
+		PreCT:  []string{"", "", "", "", "first", "handler"}[rapid.IntRange(0, 5).Draw(t, "prect")],
 	}
 	if rapid.IntRange(0, 5).Draw(t, "anystatus") == 0 {
 		c.Status = rapid.IntRange(100, 999).Draw(t, "rawstatus")
